@@ -1060,6 +1060,7 @@ impl<const M0: u64, const M1: u64, const M2: u64, const M3: u64> ModInt256<M0, M
         (r, ng)
     }
 
+    #[cfg_attr(pornin_crrl_verif_cut, inline(never))]
     fn set_div(&mut self, y: &Self) {
         // Extended binary GCD:
         //
@@ -1953,6 +1954,7 @@ impl<const M0: u64, const M1: u64, const M2: u64, const M3: u64> ModInt256<M0, M
     // Decode an element from some bytes. The bytes are interpreted in
     // unsigned little-endian convention, and the resulting integer is
     // reduced modulo m. This process never fails.
+    #[cfg_attr(pornin_crrl_verif_cut, inline(never))]
     pub fn set_decode_reduce(&mut self, buf: &[u8]) {
         *self = Self::ZERO;
         let mut n = buf.len();
